@@ -36,6 +36,10 @@ def bounds(tier):
     return {"entries": 3, "offset_gaps": OGAPS, "line_gaps": LGAPS, "negative_line_gaps": NEG, "first_lines": [1, 1000]}
 
 
+def hosts(tier):
+    return common.HOSTS
+
+
 def prepare(tier):
     return {"tier": tier}
 
